@@ -200,6 +200,11 @@ func (s *Syncer[H]) tailHeight(ctx context.Context, oldTail, head H) (uint64, er
 // estimateTailHeight estimates the tail header based on the current head.
 // It respects the trusting period, ensuring Syncer never initializes off an expired header.
 func (s *Syncer[H]) estimateTailHeight(head H) uint64 {
+	if s.Params.blockTime <= 0 {
+		// nothing to estimate with if block time is unknown, so start from the head itself
+		return head.Height()
+	}
+
 	headersToRetain := uint64(s.Params.trustingPeriod / s.Params.blockTime) //nolint:gosec
 	if headersToRetain >= head.Height() {
 		// means chain is very young so we can keep all headers starting from genesis
@@ -222,11 +227,17 @@ func (s *Syncer[H]) findTailHeight(ctx context.Context, oldTail, head H) (uint64
 	case tailTimeDiff <= 0:
 		// current tail is relevant as is
 		return oldTail.Height(), nil
+	case s.Params.blockTime <= 0:
+		// nothing to estimate with if block time is unknown, so iterate from the current tail
+		estimatedTailHeight = oldTail.Height()
 	case tailTimeDiff >= window:
 		// current and expected tails are far from each other
 		// estimate with head for higher accuracy
 		headersToStore := uint64(window / s.Params.blockTime) //nolint:gosec
-		estimatedTailHeight = head.Height() - headersToStore
+		if headersToStore < head.Height() {
+			// otherwise, there are fewer headers than the window is expected to hold (e.g. halted chain)
+			estimatedTailHeight = head.Height() - headersToStore
+		}
 	case tailTimeDiff < window:
 		// tails are close
 		// estimate with tail for higher accuracy
@@ -242,8 +253,10 @@ func (s *Syncer[H]) findTailHeight(ctx context.Context, oldTail, head H) (uint64
 		"new_estimated_tail", estimatedTailHeight,
 	)
 
-	newTailHeight := estimatedTailHeight
-	for newTailHeight > oldTail.Height() && newTailHeight < s.store.Height() {
+	// the estimation can be off in both directions if headers are not spaced by block time,
+	// so keep it within the stored chain: never below the current tail and never above the head
+	newTailHeight := min(max(estimatedTailHeight, oldTail.Height()), max(s.store.Height(), oldTail.Height()))
+	for newTailHeight < s.store.Height() {
 		// store keeps all the headers up to the current head
 		// iterate over the headers and find the most accurate tail
 		newTail, err := s.store.GetByHeight(ctx, newTailHeight)
